@@ -3,11 +3,13 @@ package rules
 import (
 	"fmt"
 	"go/ast"
+	"go/token"
 	"go/types"
 	"sort"
 	"strings"
 
 	"verif/checker/internal/core"
+	"verif/checker/internal/gee"
 )
 
 // ---------------------------------------------------------------------------
@@ -134,38 +136,65 @@ func ruleWrapperRecursion(c *core.Ctx) {
 			c.Undecided(rule, site[1]+"/anchor", 0, "function not found")
 			continue
 		}
-		info := p.TypesInfo
-		sws := findTypeSwitches(info, d.Body, nil)
-		if len(sws) == 0 {
-			c.Undecided(rule, site[1]+"/type switch", d.Pos(), "no type switch")
-			continue
-		}
-		sw := sws[0]
-		for _, w := range wrappers {
-			key := site[1] + "/" + w
-			found := false
-			for _, cs := range sw.cases {
-				for _, t := range cs.types {
-					if n := core.NamedOf(t); n != nil && n.Obj().Name() == w {
-						found = true
-						rec := false
-						for _, s := range cs.body {
-							if r, ok := s.(*ast.ReturnStmt); ok && len(r.Results) == 1 {
-								if ce, ok := r.Results[0].(*ast.CallExpr); ok {
-									if g := core.Callee(info, ce); g != nil && g.Origin() == f && len(ce.Args) == 1 && strings.HasSuffix(core.ExprStringNoParens(core.InlineLocals(info, d.Body, ce.Args[0])), ".InnerChange") {
-										rec = true
-									}
-								}
-							}
-						}
-						c.Check(rec, rule, key, cs.cc.Pos(), "returns "+site[1]+"(tc.InnerChange)", "the case for "+w+" does not return "+site[1]+"(tc.InnerChange): an element change nested under two wrappers (e.g. a vector of optionals) is misclassified")
-					}
+		// evaluated on the function's guarded returns: for a change of wrapper kind W the value returned
+		// is the function applied to W's InnerChange — whether the kinds are told apart by a type switch,
+		// by comma-ok assertions, or a mix
+		x := &gee.Extractor{Info: p.TypesInfo, Fset: c.Fset, AllReturns: true}
+		rows := x.Extract(site[1], d)
+		subj := ""
+		for _, r := range rows {
+			for _, g := range r.Guards {
+				if sj, _, _, ok := parseSetGuard(stripDsl(g)); ok && strings.HasPrefix(sj, "type(") && subj == "" {
+					subj = sj
 				}
 			}
-			if !found {
-				c.Bad(rule, key, sw.stmt.Pos(), "no case for wrapper change "+w)
-			}
 		}
+		if subj == "" {
+			c.Undecided(rule, site[1]+"/type tests", d.Pos(), "the function does not distinguish change kinds by type")
+			continue
+		}
+		for _, w := range wrappers {
+			key := site[1] + "/" + w
+			asg := map[string]string{subj: w}
+			n, rec := 0, true
+			var at token.Pos
+			for _, r := range rows {
+				if r.Kind != "return" || r.In != "" {
+					continue
+				}
+				if sat, _ := guardSat(r.Guards, asg); !sat {
+					continue
+				}
+				// rows whose guards do not mention the kind at all are the fall-through default, reached
+				// only when no earlier row returned: ignore them when a kind-specific row exists
+				specific := false
+				for _, g := range r.Guards {
+					if sj, elems, neg, ok := parseSetGuard(stripDsl(g)); ok && sj == subj && !neg {
+						for _, e := range elems {
+							if e == w {
+								specific = true
+							}
+						}
+					}
+				}
+				if !specific {
+					continue
+				}
+				n++
+				at = r.Pos
+				val := strings.TrimPrefix(strings.TrimPrefix(r.Tmpl, "VAL:"), "CALL:")
+				args := strings.Join(r.Args, ", ")
+				want := w + ".InnerChange"
+				okRow := (val == site[1]+"("+want+")") || (val == site[1] && args == want)
+				rec = rec && okRow
+			}
+			if n == 0 {
+				c.Bad(rule, key, d.Pos(), "no case for wrapper change "+w)
+				continue
+			}
+			c.Check(rec, rule, key, at, "returns "+site[1]+"(tc.InnerChange)", "the case for "+w+" does not return "+site[1]+"(tc.InnerChange): an element change nested under two wrappers (e.g. a vector of optionals) is misclassified")
+		}
+		_ = f
 	}
 }
 
@@ -213,6 +242,17 @@ func ruleChangeKindsConsumed(c *core.Ctx) {
 				}
 			}
 		}
+		// `if x, ok := v.(*T); ok` is a one-case type switch
+		ast.Inspect(d.Body, func(n ast.Node) bool {
+			if as, ok := n.(*ast.AssignStmt); ok && len(as.Lhs) == 2 && len(as.Rhs) == 1 {
+				if ta, ok := ast.Unparen(as.Rhs[0]).(*ast.TypeAssertExpr); ok && ta.Type != nil {
+					if nt := core.NamedOf(pp.TypesInfo.TypeOf(ta.Type)); nt != nil {
+						res[nt.Obj().Name()] = true
+					}
+				}
+			}
+			return true
+		})
 		return res
 	}
 	conv := casesOf("internal/cpp/binary", "writeTypeConversion")
